@@ -225,6 +225,12 @@ func Scenarios(tier string) []*Scenario {
 	r1 := threadSpec{u: shared, tree: 0, steps: []step{{kind: "search", k: kx}, {kind: "search", k: absent}, {kind: "min"}, {kind: "all-stop", n: 2}}}
 	r2 := threadSpec{u: shared, tree: 0, steps: []step{{kind: "search", k: k3}, {kind: "prefix", k: shared.Prefixes[1]}, {kind: "max"}, {kind: "search", k: ka}}}
 	out = append(out, build("readers-2/alpha", "two goroutines querying one quiescent byte-string tree (node4, node16, long path)", 1, []threadSpec{r1, r2}))
+	// long lookup keys (per-tree scratch buffers tend to be used only above some key length)
+	long := hist.NewAlphaUniverse(hist.AlphaSpec{Name: "S-LONGKEYS", Setup: []string{P(40) + "a", P(40) + "b", P(70) + "c", "q" + P(33), "r" + P(65)},
+		Free: []string{P(40) + "a", P(70) + "c", "q" + P(33), "r" + P(65)}, Probes: []string{P(40) + "z"}, NoAutoP: true}, "string")
+	l1 := threadSpec{u: long, tree: 0, steps: []step{{kind: "search", k: long.Free[0]}, {kind: "search", k: long.Free[2]}, {kind: "search", k: long.DelExtra[0]}}}
+	l2 := threadSpec{u: long, tree: 0, steps: []step{{kind: "search", k: long.Free[1]}, {kind: "search", k: long.Free[3]}, {kind: "min"}}}
+	out = append(out, build("readers-2/alpha-longkeys", "two goroutines searching one quiescent byte-string tree with 34..71-byte keys", 1, []threadSpec{l1, l2}))
 	u64 := hist.SharedU64()
 	n1 := threadSpec{u: u64, tree: 0, steps: []step{{kind: "search", k: u64.Free[0]}, {kind: "range", k: u64.Free[0], b: u64.Free[1]}, {kind: "min"}}}
 	n2 := threadSpec{u: u64, tree: 0, steps: []step{{kind: "max"}, {kind: "search", k: u64.DelExtra[0]}, {kind: "topk", n: 1}, {kind: "search", k: u64.Free[1]}}}
